@@ -929,6 +929,134 @@ fn branch_sub(tier: Tier) -> Sub {
     )
 }
 
+/// Values of symbols 0..=3 for the symbol-resolving writer.
+const SYMVAL: [u64; 4] = [0x40_1000, 0x1234, 0x2345, 0x3456];
+
+/// `EndianVec` that resolves symbolic addresses and symbolic `.debug_info` references (the stock
+/// writer rejects both), so that expressions referring to symbols can be written and decoded.
+#[derive(Clone, Debug)]
+struct SymVec(EndianVec<RunTimeEndian>);
+impl write::Writer for SymVec {
+    type Endian = RunTimeEndian;
+    fn endian(&self) -> RunTimeEndian {
+        self.0.endian()
+    }
+    fn len(&self) -> usize {
+        self.0.len()
+    }
+    fn write(&mut self, bytes: &[u8]) -> write::Result<()> {
+        self.0.write(bytes)
+    }
+    fn write_at(&mut self, offset: usize, bytes: &[u8]) -> write::Result<()> {
+        self.0.write_at(offset, bytes)
+    }
+    fn write_address(&mut self, address: Address, size: u8) -> write::Result<()> {
+        match address {
+            Address::Constant(v) => self.write_udata(v, size),
+            Address::Symbol { symbol, addend } => self.write_udata(SYMVAL[symbol % 4].wrapping_add(addend as u64), size),
+        }
+    }
+    fn write_reference(&mut self, symbol: usize, size: u8) -> write::Result<()> {
+        self.write_udata(SYMVAL[symbol % 4], size)
+    }
+}
+
+/// Expressions whose operands are SYMBOLS (external entries, relocatable addresses), written
+/// through a writer that resolves them.
+fn symbolic_sub() -> Sub {
+    let cfgs = c15_cfgs();
+    let ncfg = cfgs.len() as u64;
+    Sub::new(
+        "symbolic-references",
+        ncfg * 4,
+        "op_call_ref / op_implicit_pointer / op_variable_value with DebugInfoRef::Symbol and op_addr with Address::Symbol, each followed by a sentinel constant, x version x format x address size {4,8}, written to a DIE attribute through a symbol-resolving writer: the operand must have the width the version/format/address size prescribe (DWARF 2: address-sized references) and decode to the symbol's value; the sentinel must follow intact",
+        move |ctx, i| {
+            let cfg = cfgs[(i % ncfg) as usize];
+            let k = i / ncfg;
+            let case = format!("{} symbolic operand kind {}", cfg.name(), ["call_ref", "implicit_pointer", "variable_value", "addr"][k as usize]);
+            ctx.eval(1);
+            let built = guard(|| -> Result<Vec<u8>, write::Error> {
+                let mut dwarf = Dwarf::new();
+                let unit_id = dwarf.units.add(Unit::new(wencoding(&cfg), LineProgram::none()));
+                let unit = dwarf.units.get_mut(unit_id);
+                let root = unit.root();
+                let var = unit.add(root, gimli::DW_TAG_variable);
+                let mut e = Expression::new();
+                match k {
+                    0 => e.op_call_ref(DebugInfoRef::Symbol(1)),
+                    1 => e.op_implicit_pointer(DebugInfoRef::Symbol(2), -3),
+                    2 => e.op_variable_value(DebugInfoRef::Symbol(3)),
+                    _ => e.op_addr(Address::Symbol { symbol: 0, addend: 8 }),
+                }
+                e.op_constu(SENT_A);
+                unit.get_mut(var).set(gimli::DW_AT_location, AttributeValue::Exprloc(e));
+                unit.get_mut(var).set(gimli::DW_AT_byte_size, AttributeValue::Udata(SENT_B));
+                let mut sections = Sections::new(SymVec(EndianVec::new(endian(&cfg))));
+                dwarf.write(&mut sections)?;
+                let info = sections.get(SectionId::DebugInfo).map(|w| w.0.slice().to_vec()).unwrap_or_default();
+                let abbrev = sections.get(SectionId::DebugAbbrev).map(|w| w.0.slice().to_vec()).unwrap_or_default();
+                let mut both = (info.len() as u64).to_le_bytes().to_vec();
+                both.extend_from_slice(&info);
+                both.extend_from_slice(&abbrev);
+                Ok(both)
+            });
+            let both = match built {
+                Err(p) => return ctx.fail_panic("write::Dwarf::write", &p, case),
+                Ok(Err(e)) => return ctx.fail("write::Expression", "symbolic-operand", "unexpected-error", format!("{}: {:?}", case, e)),
+                Ok(Ok(b)) => b,
+            };
+            let n = u64::from_le_bytes(both[..8].try_into().unwrap()) as usize;
+            let (info, abbrev) = (&both[8..8 + n], &both[8 + n..]);
+            let r = guard(|| -> Result<(), String> {
+                let en = endian(&cfg);
+                let di = gimli::DebugInfo::new(info, en);
+                let da = gimli::DebugAbbrev::new(abbrev, en);
+                let h = di.units().next().map_err(|e| e.to_string())?.ok_or("no unit")?;
+                let ab = h.abbreviations(&da).map_err(|e| e.to_string())?;
+                let mut cur = h.entries(&ab);
+                cur.next_dfs().map_err(|e| e.to_string())?;
+                let die = cur.next_dfs().map_err(|e| format!("variable entry: {}", e))?.ok_or("no variable entry")?;
+                if die.attr_value(gimli::DW_AT_byte_size).and_then(|v| v.udata_value()) != Some(SENT_B) {
+                    return Err(format!("the attribute after the expression reads {:?}", die.attr_value(gimli::DW_AT_byte_size)));
+                }
+                let ex = match die.attr(gimli::DW_AT_location).map(|a| a.raw_value()) {
+                    Some(gimli::AttributeValue::Exprloc(x)) => x,
+                    Some(gimli::AttributeValue::Block(b)) => gimli::Expression(b),
+                    other => return Err(format!("location reads back as {:?}", other)),
+                };
+                let mut ops = ex.operations(h.encoding());
+                let first = ops.next().map_err(|e| format!("first operation: {}", e))?;
+                let ok = match (k, &first) {
+                    (0, Some(gimli::Operation::Call { offset: gimli::DieReference::DebugInfoRef(o) })) => o.0 as u64 == SYMVAL[1],
+                    (1, Some(gimli::Operation::ImplicitPointer { value, byte_offset })) => value.0 as u64 == SYMVAL[2] && *byte_offset == -3,
+                    (2, Some(gimli::Operation::VariableValue { offset })) => offset.0 as u64 == SYMVAL[3],
+                    (3, Some(gimli::Operation::Address { address })) => *address == SYMVAL[0] + 8,
+                    _ => false,
+                };
+                if !ok {
+                    return Err(format!("first operation decodes to {:?}", first));
+                }
+                match ops.next().map_err(|e| format!("sentinel: {}", e))? {
+                    Some(gimli::Operation::UnsignedConstant { value }) if value == SENT_A => {}
+                    other => return Err(format!("the sentinel after the symbolic operand decodes to {:?}", other)),
+                }
+                if ops.next().map_err(|e| e.to_string())?.is_some() {
+                    return Err("trailing operations".into());
+                }
+                Ok(())
+            });
+            match r {
+                Err(p) => ctx.fail_panic("read-back", &p, case),
+                Ok(Err(e)) => ctx.fail("write::Expression", "symbolic-operand", "operand-reads-back-differently", format!("{}: {}", case, e)),
+                Ok(Ok(())) => {
+                    ctx.nontriv(1);
+                    ctx.outcome("symbolic:ok");
+                }
+            }
+        },
+    )
+}
+
 fn far_branch_sub() -> Sub {
     let cfgs = c15_cfgs();
     let ncfg = cfgs.len() as u64;
@@ -961,7 +1089,9 @@ pub fn def(tier: Tier) -> CheckDef {
     subs.push(singles_sub());
     subs.push(branch_sub(tier));
     subs.push(far_branch_sub());
+    subs.push(symbolic_sub());
     let required = [
+        "symbolic:ok",
         "host:die-exprloc",
         "host:die-block",
         "host:loclist",
